@@ -33,7 +33,7 @@ pub fn run_case(toks: &[&str], em: &mut Emitter) {
     });
 }
 
-fn emit(em: &mut Emitter, keys: &[Vec<u8>; 4], ops: &[String]) {
+pub fn emit(em: &mut Emitter, keys: &[Vec<u8>; 4], ops: &[String]) {
     let line = format!("seal {} {} {} {} {}", hex(&keys[0]), hex(&keys[1]), hex(&keys[2]), hex(&keys[3]), ops.join(","));
     let toks: Vec<&str> = line.split(' ').collect();
     run_case(&toks, em);
